@@ -424,7 +424,9 @@ func validateParamHeaders(header http.Header, msg *jsonrpc.Request, tool *Tool) 
 			continue
 		}
 
-		if headerVal == "" {
+		// The header is missing only if it is absent: an empty value mirrors
+		// the empty string argument.
+		if len(header.Values(fullHeader)) == 0 {
 			return fmt.Errorf("header mismatch: missing %s header for parameter %q", fullHeader, strings.Join(b.Path, "."))
 		}
 
